@@ -108,7 +108,7 @@ func (g *hPW) step(op int) {
 		x.p[i], g.slot[i], g.val[i] = p, s, v
 	case 3: // Assign P to an entity without it
 		i := x.pickAliveIdx("ent")
-		vAssume(x.set[i]&P == 0)
+		vAssume(x.set[i]&P == 0 && g.slot[i] < 0) // one tracked referent per entity (not an entity that carries the string component)
 		p, s, v := g.newRef("ref")
 		x.w.Assign(x.h[i], Component{ID: x.id[uP], Comp: hMkP(p)})
 		x.mExchange(i, P, 0, false, Entity{})
@@ -232,6 +232,8 @@ func HC14_Pointers() {
 			if x.alive[i] && g.slot[i] >= 0 {
 				live[g.slot[i]] = true
 			}
+		}
+		for i := 0; i < hMaxH; i++ { // also slots beyond n: a Reset in the history restarts n but leaves them behind
 			x.p[i], x.s[i] = nil, ""
 		}
 		for s := 0; s < g.nslot; s++ {
